@@ -2,16 +2,16 @@ SPECIFICATION Spec
 CONSTANTS
   RecursiveAddsBias = TRUE
   Inputs = {1, 2}
-  Biases = {3}
+  Biases = {3, 4}
   Hidden = {5, 6}
   OutSet = {8, 9}
-  Shapes = {{1, 3, 5, 6, 8}, {1, 2, 5, 8, 9}}
+  Shapes = {{1, 3, 5, 6, 8}, {1, 2, 5, 8, 9}, {1, 3, 4, 5, 8}}
   Weights <- W2
   PatternW = TRUE
   TdFlags = {FALSE}
   InVecs <- VecsQ
   OrderKinds = {"BIHO"}
-  ActSchemes <- SchemesAll
+  ActSchemes <- SchemesThree
   LinkCaps = {2}
   MinLinks = 0
   Canonical = TRUE
